@@ -28,6 +28,7 @@ import (
 	"os"
 	"reflect"
 	"regexp"
+	"slices"
 	"sort"
 	"strconv"
 	"strings"
@@ -1165,12 +1166,15 @@ func (h *Handler) Query(ctx context.Context, rawq *SearchQuery) (ret_ *SearchRes
 		if q.Sort != MapSort {
 			if q.Limit > 0 && len(res.Blobs) > q.Limit {
 				if wantAround {
-					aroundPos := sort.Search(len(res.Blobs), func(i int) bool {
-						return res.Blobs[i].Blob.String() >= q.Around.String()
+					// The results are ordered by q.Sort, which is only
+					// sometimes the blobref order, so q.Around can not be
+					// found with a binary search on the blobrefs.
+					aroundPos := slices.IndexFunc(res.Blobs, func(b *SearchResultBlob) bool {
+						return b.Blob == q.Around
 					})
 					// If we got this far, we know q.Around is in the results, so this below should
 					// never happen
-					if aroundPos == len(res.Blobs) || res.Blobs[aroundPos].Blob != q.Around {
+					if aroundPos < 0 {
 						panic("q.Around blobRef should be in the results")
 					}
 					lowerBound := max(aroundPos-q.Limit/2, 0)
